@@ -365,14 +365,20 @@ func Catch(fn func()) (panicked string) {
 // PanicSite extracts the first repository frame ("pkg.Func") from a Catch
 // result, for fingerprints.
 func PanicSite(p string) string {
-	for _, l := range strings.Split(p, "\n") {
-		l = strings.TrimSpace(l)
-		if strings.HasPrefix(l, "massnet.org/mass/") && !strings.Contains(l, "zz_verif") && !strings.Contains(l, "zzVerif") {
-			if i := strings.LastIndex(l, "("); i > 0 {
-				l = l[:i]
-			}
-			return strings.TrimPrefix(l, "massnet.org/mass/")
+	lines := strings.Split(p, "\n")
+	for i := 0; i+1 < len(lines); i++ {
+		l := strings.TrimSpace(lines[i])
+		file := strings.TrimSpace(lines[i+1])
+		if !strings.HasPrefix(l, "massnet.org/mass/") || strings.Contains(l, "zz_verif") {
+			continue
 		}
+		if strings.Contains(file, "zz_verif") || strings.Contains(file, "/verif/") {
+			continue
+		}
+		if j := strings.LastIndex(l, "("); j > 0 {
+			l = l[:j]
+		}
+		return strings.TrimPrefix(l, "massnet.org/mass/")
 	}
 	return "unknown"
 }
